@@ -18,19 +18,18 @@ Proof.
   split; [lia|]. intros H2. split; [apply Hs; lia|intros; lia].
 Qed.
 
-(* the tree of depth d below p, null moves included, stays inside the model's loop fuel and the representation limit of C01 *)
+(* the tree of depth d below p, null moves included, stays inside the representation limit of C01 *)
 Fixpoint withinP (d : nat) (p : position) : Prop :=
   match d with
   | O => True
   | S d' => is_over p = false ->
-            (length (all_moves p) <= 690)%nat /\
             (forall m q, Refine.mv p m = Ok q -> heights64 q /\ withinP d' q) /\
             withinP d' (pass_move p)
   end.
 
 Lemma withinP_le d : forall p, withinP (S d) p -> withinP d p.
 Proof.
-  induction d; intros p H; [exact I|]. intros EO. destruct (H EO) as (L & K & N). split; [exact L|]. split.
+  induction d; intros p H; [exact I|]. intros EO. destruct (H EO) as (K & N). split.
   - intros m q E. destruct (K m q E) as (H64 & W). split; [exact H64|]. apply IHd. exact W.
   - apply IHd. exact N.
 Qed.
@@ -39,21 +38,22 @@ Proof. intros H d' L. induction L; [exact H|]. apply IHL. apply withinP_le. exac
 
 Lemma withinP_within d : forall p, withinP d p -> within d p.
 Proof.
-  induction d; intros p H; [exact I|]. intros EO. destruct (H EO) as (L & K & _). split; [exact L|].
+  induction d; intros p H; [exact I|]. intros EO. destruct (H EO) as (K & _).
   intros m q E. destruct (K m q E) as (H64 & W). split; [exact H64|apply IHd; exact W].
 Qed.
 
-Theorem withinP_small : forall d p, pos_ok p -> (size p <= 5)%N -> (total p <= 51)%N -> withinP d p.
+Theorem withinP_total64 : forall d p, pos_ok p -> (total p <= 64)%N -> withinP d p.
 Proof.
-  induction d; intros p Hp Hs Ht; [exact I|]. intros _. split; [|split].
-  - destruct Hp as [S3 [LH _ _] _ _]. cbn [bview bhs] in LH. unfold nsq in LH.
-    pose proof (all_moves_small p ltac:(lia) LH). unfold total in Ht. lia.
+  induction d; intros p Hp Ht; [exact I|]. intros _. split.
   - intros m q E.
-    destruct (move_preserves_small p m q Hp ltac:(lia) (mv_not_pass p m q E) E) as (_ & Hq & ST).
-    split; [apply total_heights64; rewrite (st_total _ _ ST); lia|].
-    apply IHd; [exact Hq|rewrite (st_size _ _ ST); exact Hs|rewrite (st_total _ _ ST); exact Ht].
-  - apply IHd; [apply pos_ok_pass; exact Hp|exact Hs|exact Ht].
+    destruct (move_preserves_small p m q Hp Ht (mv_not_pass p m q E) E) as (_ & Hq & ST).
+    split; [apply total_heights64; rewrite (st_total _ _ ST); exact Ht|].
+    apply IHd; [exact Hq|rewrite (st_total _ _ ST); exact Ht].
+  - apply IHd; [apply pos_ok_pass; exact Hp|exact Ht].
 Qed.
+
+Theorem withinP_small : forall d p, pos_ok p -> (size p <= 5)%N -> (total p <= 51)%N -> withinP d p.
+Proof. intros d p Hp _ Ht. apply withinP_total64; [exact Hp|lia]. Qed.
 
 (* ---- the position family ---- *)
 Open Scope Z_scope.
@@ -64,13 +64,13 @@ Proof. intros (A & B & C). split; [exact A|]. split; [apply withinP_le; exact B|
 
 Lemma PosL_step d p m q : PosL (S d) p -> is_over p = false -> okm m -> try_move gen_basis p m = Some q -> PosL d q.
 Proof.
-  intros (A & B & C) EO Hm T. apply (try_move_mv p m q Hm) in T. destruct (B EO) as (_ & K & _). destruct (K m q T) as (H64 & W).
+  intros (A & B & C) EO Hm T. apply (try_move_mv p m q Hm) in T. destruct (B EO) as (K & _). destruct (K m q T) as (H64 & W).
   destruct (base_ok_step p m q A T H64) as (A' & Em & _). split; [exact A'|]. split; [exact W|lia].
 Qed.
 
 Lemma PosL_pass d p : PosL (S d) p -> is_over p = false -> PosL d (pass_move p).
 Proof.
-  intros (A & B & C) EO. destruct (B EO) as (_ & _ & N). split; [apply base_ok_pass; exact A|]. split; [exact N|].
+  intros (A & B & C) EO. destruct (B EO) as (_ & N). split; [apply base_ok_pass; exact A|]. split; [exact N|].
   cbn [pass_move move]. lia.
 Qed.
 
@@ -81,9 +81,6 @@ Proof.
   apply in_children_mv in Hq. destruct Hq as (m & Hm & E). exists m, q. split; [exact Hm|].
   apply (try_move_mv p m q (all_moves_okm p m Hm)). exact E.
 Qed.
-
-Lemma PosL_len d p : PosL (S d) p -> is_over p = false -> Z.of_nat (length (all_moves p)) <= 690.
-Proof. intros (_ & B & _) EO. destruct (B EO) as (L & _). lia. Qed.
 
 Lemma PosL_bound cfg : builtin_eval cfg -> forall d p, PosL d p -> okv (c_eval cfg p).
 Proof.
@@ -107,7 +104,7 @@ Theorem analyze_first_move_legal : forall cfg, builtin_eval cfg ->
   SJ sk /\ ((d = base /\ pv = ms0) \/ (base < d /\ head_legal p pv)) /\ (c = false -> base < c_depth cfg -> base < d).
 Proof.
   intros cfg HE k s p sk pv v d acc c HS Hb HO HW Hm H.
-  pose proof (analyze_legal gen_basis cfg k PosL PosL_anti PosL_step PosL_pass PosL_live PosL_len (PosL_bound cfg HE)
+  pose proof (analyze_legal gen_basis cfg k PosL PosL_anti PosL_step PosL_pass PosL_live (PosL_bound cfg HE)
                 s p sk pv v d acc c HS) as R.
   assert (HP : forall d0, Z.of_nat d0 <= c_depth cfg -> PosL d0 p).
   { intros d0 L. split; [exact Hb|]. split; [apply (withinP_mono _ p HW); lia|lia]. }
